@@ -275,6 +275,54 @@ func genSegCases(rng *Rng, nStreams int, maxLen int) {
 	}
 }
 
+// genStreamSegCases: STREAMING mode (StreamRequestBody): a chunked upload the handler reads only partly (or not at
+// all), followed by a pipelined request, under every two-way split, byte-wise delivery and random k-way splits: what the
+// handlers see and what is answered must be what the whole delivery gives.  The drain of the unread rest
+// (bodyStream.skipRest) runs over bytes that have not all arrived yet.
+func genStreamSegCases(rng *Rng, nStreams int) {
+	probe := []byte("GET /probe HTTP/1.1\r\nHost: p\r\n\r\n")
+	for i := 0; i < nStreams+3; i++ {
+		var body []byte
+		switch i {
+		case 0:
+			body = []byte("helloworld")
+		default:
+			body = genBodyBytes(rng, []int{1, 7, 10, 23, 40}[rng.Intn(5)])
+		}
+		var trailers [][2]string
+		if i%3 == 2 {
+			trailers = [][2]string{{"X-T", "v"}}
+		}
+		head := "POST /c HTTP/1.1\r\nHost: h\r\nTransfer-Encoding: chunked\r\n"
+		if trailers != nil {
+			head += "Trailer: X-T\r\n"
+		}
+		stream := append([]byte(head+"\r\n"), encodeChunked(rng, body, trailers)...)
+		stream = append(stream, probe...)
+		h := hx(stream)
+		for _, stop := range []int{0, 1, len(body) / 2, len(body), len(body) + 5} {
+			for _, rs := range []int{3, 64} {
+				args := func(cuts string) []string {
+					return []string{"sserve", "-", "0", "eof", h, cuts, strconv.Itoa(rs), strconv.Itoa(stop)}
+				}
+				runOp(args("-"))
+				ref := safe(ops["sserve"], args("-")[1:])
+				for c := 1; c < len(stream); c++ {
+					runOpSeg(args(strconv.Itoa(c)), ref)
+				}
+				var all []string
+				for c := 1; c < len(stream); c++ {
+					all = append(all, strconv.Itoa(c))
+				}
+				runOpSeg(args(strings.Join(all, ",")), ref)
+				for r := 0; r < 3; r++ {
+					runOpSeg(args(genCuts(rng, len(stream))), ref)
+				}
+			}
+		}
+	}
+}
+
 func init() {
 	props["C01"] = func(tier string, rng *Rng) {
 		n := 2500
@@ -302,6 +350,7 @@ func init() {
 		genSegCases(rng, n, 420)
 		genServeCases(rng, n*10, 4, true, 60)
 		genRespSegCases(rng, n/2)
+		genStreamSegCases(rng, n/25)
 		// X02: the scanner's in-place edits (harness/c02x.go)
 		genScanEditFixed()
 		genScanEdit(rng, n/5)
